@@ -205,7 +205,7 @@ func c09(c *Ctx) {
 	// decrypt goroutine
 	if get := c.fn("R09.4", "store.(*onDiskStore).Get"); get != nil {
 		found := false
-		for _, cl := range engine.WithClosures(get)[1:] {
+		for _, cl := range engine.WithClosuresAndHandedOut(get)[1:] {
 			for _, cs := range engine.Calls(cl) {
 				cc := cs.Common()
 				if !(cc.IsInvoke() && cc.Method.Name() == "Open") {
